@@ -27,6 +27,9 @@ type Inconclusive struct {
 	ID, Reason string
 }
 
+// OblStat counts how an obligation id was decided.
+type OblStat struct{ Total, Trivial, Unsat, Sat, Unknown int }
+
 type pathEnd struct{ reason string }
 
 type Machine struct {
@@ -59,13 +62,14 @@ type Machine struct {
 	Trace         []string // per path event trace (external calls etc.)
 	Samples       []string
 	Assumptions   map[string]bool
+	OblIDs        map[string]*OblStat
 	Debug         bool
 	curDecisions  []bool
 }
 
 func NewMachine(s *smt.Solver) *Machine {
 	return &Machine{S: s, feasCache: map[string]smt.Result{}, MaxPaths: 200000, MaxDecision: 4000,
-		PathsEnded: map[string]int{}, Reached: map[string]int{}, Assumptions: map[string]bool{}, MemCheck: true}
+		OblIDs: map[string]*OblStat{}, PathsEnded: map[string]int{}, Reached: map[string]int{}, Assumptions: map[string]bool{}, MemCheck: true}
 }
 
 // Fresh returns a fresh variable with a deterministic name (per path).
@@ -278,8 +282,15 @@ func (m *Machine) NDecisions() int { return m.pos }
 // recorded with its model.  Execution continues under the assumption c.
 func (m *Machine) Assert(c *smt.Term, id, msg, kind string) bool {
 	m.Obligations++
+	st := m.OblIDs[id]
+	if st == nil {
+		st = &OblStat{}
+		m.OblIDs[id] = st
+	}
+	st.Total++
 	if c.IsTrue() {
 		m.Discharged++
+		st.Trivial++
 		return true
 	}
 	q := append(append([]*smt.Term{}, m.PC...), smt.BNot(c))
@@ -294,13 +305,16 @@ func (m *Machine) Assert(c *smt.Term, id, msg, kind string) bool {
 	switch r {
 	case smt.Unsat:
 		m.Discharged++
+		st.Unsat++
 		m.addPC(c) // harmless, helps later simplification
 		return true
 	case smt.Unknown:
+		st.Unknown++
 		m.Inconclusive(id, "solver unknown/timeout: "+msg)
 		m.addPC(c)
 		return true
 	}
+	st.Sat++
 	f := Failure{ID: id, Msg: msg, Kind: kind, Decisions: m.Decisions(), Trace: append([]string{}, m.Trace...)}
 	if mod != nil {
 		f.Model = mod.V
